@@ -1,11 +1,16 @@
 /-
-  C06 helper lemmas: entry scan — zero terminator, cache hit, FDE → CIE pointer arithmetic.
+  C06 helper lemmas: entry scan — zero terminator, cache hit, FDE → CIE pointer arithmetic; the objects a
+  section's entries must be parsed to (`modelOf`, `modelFrom`), layout of `encodeSection`, the cache invariant,
+  single-entry theorems (`cie_miss`, `cie_fetch`, `link_ok`, `fde_miss_df`), the induction over the entry list
+  (`loop_ok`, `parseEntries_ok`), and the observation lemmas (`modelOf_core`, `modelOf_table`).
+  Not yet proved: `FdeMissOk` for `.eh_frame` (see Props/C06.lean).
 -/
 import PyElf.Spec.CFI
 import PyElf.Spec.DwarfStructs
 import PyElf.Model.CallFrame
 import PyElf.Proofs.Primitives
 import PyElf.Proofs.CfiParse
+import PyElf.Proofs.CfiHeaders
 namespace PyElf.Proofs.Cfi
 open PyElf PyElf.Spec PyElf.Model PyElf.Proofs
 
@@ -55,5 +60,845 @@ theorem cie_link (C : Cfi) (recur : Int → Nat → Cache → R (Model.Entry × 
     have : ((fdeOff : Int) + ((32 / 8 : Nat) : Int) - ((fdeOff + 4 - cieOff : Nat) : Int)) = (cieOff : Int) := by
       omega
     simp only [if_true, this, hrec]
+
+
+/-! ## the section scan: `parseEntries (encodeSection sec) = the entries of sec` -/
+
+/-- the parser object for a section: the tables and struct bundles of the Spec (= the regenerated ones,
+    Props/TieC06.lean), the section's bytes, address and kind -/
+def cfiOf (sec : Section) (env : Env) (data : Bytes) : Cfi :=
+  { T := Spec.cfiTables, structs := fun fmt => .ok (Spec.dwarfStructs ⟨sec.le, fmt, sec.asz, 2⟩),
+    env := env, data := data, address := sec.address, eh := sec.eh }
+
+def fmtOf (b : Bool) : Nat := if b then 64 else 32
+
+def cieIdv (sec : Section) (c : Cie) : Nat := if sec.eh then 0 else 256 ^ offSize c.fmt64 - 1
+
+def cieAugPart (sec : Section) (c : Cie) : Bytes :=
+  match c.aug with
+  | some items => if sec.eh then encUlebN c.augLenN (augData sec.le sec.asz items).length ++ augData sec.le sec.asz items else []
+  | none => []
+
+def cieAugBytes (sec : Section) (c : Cie) : Bytes :=
+  match c.aug with
+  | some items => if sec.eh then augData sec.le sec.asz items else []
+  | none => []
+
+/-- the CIE object the library must build -/
+def mCie (sec : Section) (off : Nat) (c : Cie) : Model.Entry :=
+  .cie (cieFields (c.body sec).length (cieIdv sec c) c.version (augString c.aug) c.addrSize c.segSize c.caf.v c.daf.v c.ra.v)
+    (c.instrs.map toInstr) off (augDictObs sec.le sec.asz c.aug) (cieAugBytes sec c) (fmtOf c.fmt64)
+
+def fdeLocOff (off : Nat) (f : Fde) : Nat := off + ilfs f.fmt64 + offSize f.fmt64
+def fdeEncIn (sec : Section) (c : Cie) : Nat := if sec.eh then c.fdeEnc else 0
+def fdeAugSkip (sec : Section) (f : Fde) (c : Cie) : Nat := if sec.eh ∧ c.aug.isSome then f.augLenN else 0
+def fdeLsdaOff (sec : Section) (off : Nat) (f : Fde) (c : Cie) : Nat :=
+  fdeLocOff off f + (encPtr sec.le sec.asz (fdeEncIn sec c % 16) f.loc).length
+    + (encPtr sec.le sec.asz (fdeEncIn sec c % 16) f.range).length + fdeAugSkip sec f c
+
+def fdeFields (sec : Section) (off : Nat) (f : Fde) (c : Cie) : Fields :=
+  [("length", .int (offSize f.fmt64 + (f.tail sec c).length)), ("CIE_pointer", .int (sec.ciePointer off f)),
+   ("initial_location", .int (f.loc + pcrelAdj sec (fdeEncIn sec c) (fdeLocOff off f))), ("address_range", .int f.range)]
+
+/-- the FDE object the library must build; its `cie` is THE object built for the designated CIE -/
+def mFde (sec : Section) (off : Nat) (f : Fde) (c : Cie) : Model.Entry :=
+  .fde (fdeFields sec off f c) (f.instrs.map toInstr) off (mCie sec (sec.offsetOf f.cie) c)
+    ((f.augPart sec c).drop (fdeAugSkip sec f c))
+    (if sec.eh ∧ c.lsdaEnc ≠ 0xff then some (f.lsda + pcrelAdj sec c.lsdaEnc (fdeLsdaOff sec off f c)) else none)
+    (fmtOf f.fmt64)
+
+def modelOf (sec : Section) (off : Nat) : Spec.Entry → Model.Entry
+  | .cie c => mCie sec off c
+  | .fde f =>
+    match sec.cieAt f.cie with
+    | some c => mFde sec off f c
+    | none => .zero off           -- not well-formed
+  | .zero => .zero off
+
+def modelFrom (sec : Section) : Nat → List Spec.Entry → List Model.Entry
+  | _, [] => []
+  | off, e :: es => modelOf sec off e :: modelFrom sec (off + e.size sec) es
+
+/-! ### layout of the encoded section -/
+
+theorem encLength_length (le fmt64 : Bool) (len : Nat) : (encLength le fmt64 len).length = ilfs fmt64 := by
+  cases fmt64 <;> simp [encLength, ilfs, encNat_length]
+
+theorem enc_length (sec : Section) (off : Nat) (e : Spec.Entry) : (e.enc sec off).length = e.size sec := by
+  cases e with
+  | cie c => simp [Entry.enc, Entry.size, encLength_length]
+  | fde f =>
+    simp only [Entry.enc, Entry.size]
+    cases sec.cieAt f.cie with
+    | none => rfl
+    | some c => simp [encLength_length, encNat_length]; omega
+  | zero => rfl
+
+def sizes (sec : Section) (es : List Spec.Entry) : Nat := (es.map (Entry.size sec)).sum
+
+theorem encFrom_append (sec : Section) (a b : List Spec.Entry) : ∀ off,
+    encFrom sec off (a ++ b) = encFrom sec off a ++ encFrom sec (off + sizes sec a) b := by
+  induction a with
+  | nil => intro off; simp [encFrom, sizes]
+  | cons e a ih =>
+    intro off
+    simp only [List.cons_append, encFrom, ih, sizes, List.map_cons, List.sum_cons, List.append_assoc]
+    rw [Nat.add_assoc]
+
+theorem encFrom_length (sec : Section) (a : List Spec.Entry) : ∀ off, (encFrom sec off a).length = sizes sec a := by
+  induction a with
+  | nil => intro off; rfl
+  | cons e a ih => intro off; simp [encFrom, enc_length, ih, sizes]
+
+theorem offsetOf_eq (sec : Section) (i : Nat) : sec.offsetOf i = sizes sec (sec.entries.take i) := rfl
+
+theorem offsetOf_succ (sec : Section) (i : Nat) (e : Spec.Entry) (h : sec.entries[i]? = some e) :
+    sec.offsetOf (i + 1) = sec.offsetOf i + e.size sec := by
+  have hi : i < sec.entries.length := by
+    rcases Nat.lt_or_ge i sec.entries.length with h' | h'
+    · exact h'
+    · rw [List.getElem?_eq_none h'] at h; cases h
+  have he : sec.entries[i] = e := by rw [List.getElem?_eq_getElem hi] at h; injection h
+  simp only [Section.offsetOf]
+  rw [List.take_succ_eq_append_getElem hi, he]
+  simp
+
+theorem drop_offsetOf (sec : Section) (i : Nat) (e : Spec.Entry) (h : sec.entries[i]? = some e) :
+    (encodeSection sec).drop (sec.offsetOf i)
+      = e.enc sec (sec.offsetOf i) ++ encFrom sec (sec.offsetOf (i + 1)) (sec.entries.drop (i + 1)) := by
+  have hi : i < sec.entries.length := by
+    rcases Nat.lt_or_ge i sec.entries.length with h' | h'
+    · exact h'
+    · rw [List.getElem?_eq_none h'] at h; cases h
+  have he : sec.entries[i] = e := by rw [List.getElem?_eq_getElem hi] at h; injection h
+  have hsplit : sec.entries = sec.entries.take i ++ (e :: sec.entries.drop (i + 1)) := by
+    rw [← he, List.getElem_cons_drop_succ_eq_drop hi, List.take_append_drop]
+  have : encodeSection sec = encFrom sec 0 (sec.entries.take i) ++ encFrom sec (sec.offsetOf i) (e :: sec.entries.drop (i + 1)) := by
+    unfold encodeSection
+    conv => lhs; rw [hsplit]
+    rw [encFrom_append, Nat.zero_add, offsetOf_eq]
+  rw [this, offsetOf_eq, ← encFrom_length sec _ 0, List.drop_left]
+  rw [encFrom_length, ← offsetOf_eq, encFrom, ← offsetOf_succ sec i e h]
+
+def wfEntry (sec : Section) (off : Nat) : Spec.Entry → Bool
+  | .cie c => c.wf sec
+  | .fde f => f.wf sec off
+  | .zero => sec.eh
+
+theorem wfFrom_append (sec : Section) (a : List Spec.Entry) (e : Spec.Entry) (b : List Spec.Entry) : ∀ off,
+    wfFrom sec off (a ++ e :: b) = true → wfEntry sec (off + sizes sec a) e = true := by
+  induction a with
+  | nil =>
+    intro off h
+    simp only [List.nil_append, wfFrom, Bool.and_eq_true] at h
+    simp only [sizes, List.map_nil, List.sum_nil, Nat.add_zero]
+    cases e <;> exact h.1
+  | cons x a ih =>
+    intro off h
+    simp only [List.cons_append, wfFrom, Bool.and_eq_true] at h
+    have := ih _ h.2
+    simpa [sizes, Nat.add_assoc] using this
+
+theorem wf_at (sec : Section) (hwf : sec.wf = true) (i : Nat) (e : Spec.Entry) (h : sec.entries[i]? = some e) :
+    wfEntry sec (sec.offsetOf i) e = true := by
+  have hi : i < sec.entries.length := by
+    rcases Nat.lt_or_ge i sec.entries.length with h' | h'
+    · exact h'
+    · rw [List.getElem?_eq_none h'] at h; cases h
+  have he : sec.entries[i] = e := by rw [List.getElem?_eq_getElem hi] at h; injection h
+  have hsplit : sec.entries = sec.entries.take i ++ (e :: sec.entries.drop (i + 1)) := by
+    rw [← he, List.getElem_cons_drop_succ_eq_drop hi, List.take_append_drop]
+  simp only [Section.wf, Bool.and_eq_true] at hwf
+  have h2 := hwf.2
+  rw [hsplit] at h2
+  have := wfFrom_append sec _ e _ 0 h2
+  rwa [Nat.zero_add, ← offsetOf_eq] at this
+
+theorem size_ge4 (sec : Section) (off : Nat) (e : Spec.Entry) (h : wfEntry sec off e = true) : 4 ≤ e.size sec := by
+  cases e with
+  | cie c => simp only [Entry.size, ilfs]; split <;> omega
+  | fde f =>
+    simp only [wfEntry, Fde.wf] at h
+    simp only [Entry.size]
+    cases hc : sec.cieAt f.cie with
+    | none => rw [hc] at h; cases h
+    | some c => simp only [ilfs]; split <;> omega
+  | zero => simp [Entry.size]
+
+
+theorem getElem?_lt {α} {l : List α} {i : Nat} {e : α} (h : l[i]? = some e) : i < l.length := by
+  rcases Nat.lt_or_ge i l.length with h' | h'
+  · exact h'
+  · rw [List.getElem?_eq_none h'] at h; cases h
+
+/-- offsets are strictly increasing (every well-formed entry occupies at least its length word) -/
+theorem offsetOf_lt (sec : Section) (hwf : sec.wf = true) : ∀ (j i : Nat), i < j → j ≤ sec.entries.length →
+    sec.offsetOf i < sec.offsetOf j := by
+  intro j
+  induction j with
+  | zero => intro i h; omega
+  | succ j ih =>
+    intro i hij hj
+    have hjl : j < sec.entries.length := by omega
+    have hget : sec.entries[j]? = some sec.entries[j] := List.getElem?_eq_getElem hjl
+    have h4 := size_ge4 sec _ _ (wf_at sec hwf j _ hget)
+    rw [offsetOf_succ sec j _ hget]
+    rcases Nat.lt_or_ge i j with h | h
+    · have := ih i h (by omega); omega
+    · have : i = j := by omega
+      subst this; omega
+
+theorem offsetOf_inj (sec : Section) (hwf : sec.wf = true) {i j : Nat} (hi : i < sec.entries.length)
+    (hj : j < sec.entries.length) (h : sec.offsetOf i = sec.offsetOf j) : i = j := by
+  rcases Nat.lt_trichotomy i j with hl | he | hg
+  · have := offsetOf_lt sec hwf j i hl (by omega); omega
+  · exact he
+  · have := offsetOf_lt sec hwf i j hg (by omega); omega
+
+theorem offsetOf_end (sec : Section) : sec.offsetOf sec.entries.length = (encodeSection sec).length := by
+  rw [offsetOf_eq, List.take_length, encodeSection, encFrom_length]
+
+theorem offsetOf_succ_le (sec : Section) (hwf : sec.wf = true) (i : Nat) (hi : i < sec.entries.length) :
+    sec.offsetOf (i + 1) ≤ (encodeSection sec).length := by
+  rw [← offsetOf_end]
+  rcases Nat.lt_or_ge (i + 1) sec.entries.length with h | h
+  · exact Nat.le_of_lt (offsetOf_lt sec hwf _ _ h (Nat.le_refl _))
+  · have : i + 1 = sec.entries.length := by omega
+    rw [this]; exact Nat.le_refl _
+
+theorem index_le_offset (sec : Section) (hwf : sec.wf = true) : ∀ i, i ≤ sec.entries.length → i ≤ sec.offsetOf i := by
+  intro i
+  induction i with
+  | zero => intro _; exact Nat.zero_le _
+  | succ i ih =>
+    intro hi
+    have := offsetOf_lt sec hwf (i + 1) i (Nat.lt_succ_self i) hi
+    have := ih (by omega)
+    omega
+
+/-! ### the cache invariant -/
+
+def CacheInv (sec : Section) (cache : Cache) : Prop :=
+  ∀ (k : Int) (e : Model.Entry), cache.get k = some e →
+    ∃ i se, sec.entries[i]? = some se ∧ se ≠ .zero ∧ k = (sec.offsetOf i : Int) ∧ e = modelOf sec (sec.offsetOf i) se
+
+theorem CacheInv.nil (sec : Section) : CacheInv sec [] := by
+  intro k e h; simp [Cache.get] at h
+
+theorem CacheInv.cons {sec : Section} {cache : Cache} (h : CacheInv sec cache) (i : Nat) (se : Spec.Entry)
+    (hi : sec.entries[i]? = some se) (hz : se ≠ .zero) :
+    CacheInv sec (((sec.offsetOf i : Int), modelOf sec (sec.offsetOf i) se) :: cache) := by
+  intro k e hk
+  simp only [Cache.get] at hk
+  split at hk
+  · rename_i heq
+    injection hk with hk
+    exact ⟨i, se, hi, hz, heq.symm, hk.symm⟩
+  · exact h k e hk
+
+/-- a hit at the offset of entry `i` returns the object built for entry `i` -/
+theorem CacheInv.hit {sec : Section} (hwf : sec.wf = true) {cache : Cache} (h : CacheInv sec cache) {i : Nat}
+    {se : Spec.Entry} (hi : sec.entries[i]? = some se) {e : Model.Entry}
+    (hk : cache.get (sec.offsetOf i : Int) = some e) : se ≠ .zero ∧ e = modelOf sec (sec.offsetOf i) se := by
+  obtain ⟨j, se', hj, hz, hkj, he⟩ := h _ _ hk
+  have : i = j := offsetOf_inj sec hwf (getElem?_lt hi) (getElem?_lt hj) (by omega)
+  subst this
+  rw [hi] at hj; injection hj with hj; subst hj
+  exact ⟨hz, he⟩
+
+/-- the cache after fetching the entry at `k` -/
+def Kc (k : Int) (e : Model.Entry) (cache : Cache) : Cache :=
+  match cache.get k with
+  | some _ => cache
+  | none => (k, e) :: cache
+
+theorem CacheInv.Kc {sec : Section} {cache : Cache} (h : CacheInv sec cache) (i : Nat) (se : Spec.Entry)
+    (hi : sec.entries[i]? = some se) (hz : se ≠ .zero) :
+    CacheInv sec (Kc (sec.offsetOf i : Int) (modelOf sec (sec.offsetOf i) se) cache) := by
+  unfold Proofs.Cfi.Kc
+  split
+  · exact h
+  · exact h.cons i se hi hz
+
+/-! ### one CIE -/
+
+theorem augString_nonzero (aug : Option (List AugItem)) : ∀ b ∈ augString aug, b ≠ 0 := by
+  cases aug with
+  | none => intro b hb; simp [augString] at hb
+  | some items =>
+    intro b hb
+    simp only [augString, List.mem_cons, List.mem_map] at hb
+    rcases hb with rfl | ⟨i, _, rfl⟩
+    · decide
+    · cases i <;> simp [AugItem.letter]
+
+theorem cie_body_eq (sec : Section) (c : Cie) :
+    c.body sec = cieHdrBytes sec.le (offSize c.fmt64) (cieIdv sec c) c.version (augString c.aug) c.addrSize c.segSize
+      c.caf c.daf c.ra (cieAugPart sec c ++ encInstrs sec.le sec.asz c.instrs) := by
+  unfold Cie.body cieHdrBytes cieTail cieIdv cieAugPart
+  cases sec.eh <;> simp [List.append_assoc] <;> (cases c.aug <;> rfl)
+
+theorem cie_size_eq (sec : Section) (c : Cie) :
+    (c.body sec).length = cieHdrLen (offSize c.fmt64) c.version (augString c.aug) c.caf c.daf c.ra
+      + (cieAugPart sec c).length + (encInstrs sec.le sec.asz c.instrs).length := by
+  rw [cie_body_eq]
+  unfold cieHdrBytes cieTail cieHdrLen
+  simp only [List.length_append, List.length_cons, encNat_length, byte_length, uleb_len, sleb_len]
+  split <;> split <;> simp [byte_length, uleb_len] <;> omega
+
+theorem instrs_length_le (le : Bool) (asz : Nat) (is : List Cfa) : is.length ≤ (encInstrs le asz is).length := by
+  induction is with
+  | nil => simp [encInstrs]
+  | cons i r ih =>
+    have := enc_length_pos le asz i
+    simp only [encInstrs, List.flatMap_cons, List.length_append, List.length_cons] at ih ⊢
+    omega
+
+theorem cieHdrBytes_append (le : Bool) (osz idv ver : Nat) (aug : Bytes) (a s : Nat) (caf : ULeb) (daf : SLeb) (ra : ULeb)
+    (r t : Bytes) : cieHdrBytes le osz idv ver aug a s caf daf ra r ++ t = cieHdrBytes le osz idv ver aug a s caf daf ra (r ++ t) := by
+  simp [cieHdrBytes, cieTail, List.append_assoc]
+
+theorem cieHdrBytes_length (le : Bool) (osz idv ver : Nat) (aug : Bytes) (a s : Nat) (caf : ULeb) (daf : SLeb) (ra : ULeb)
+    (r : Bytes) : (cieHdrBytes le osz idv ver aug a s caf daf ra r).length = cieHdrLen osz ver aug caf daf ra + r.length := by
+  unfold cieHdrBytes cieTail cieHdrLen
+  simp only [List.length_append, List.length_cons, encNat_length, byte_length, uleb_len, sleb_len]
+  split <;> split <;> simp [byte_length, uleb_len] <;> omega
+
+/-- the first length word and the CIE_id / CIE_pointer word of an entry, as `_parse_entry_at` reads them -/
+theorem entry_words {env : Env} {data : Bytes} {off : Nat} {le fmt64 : Bool} {len w : Nat} {rest : Bytes}
+    (hd : data.drop off = encLength le fmt64 len ++ (encNat le (offSize fmt64) w ++ rest))
+    (hlen : lenOk fmt64 len = true) (hw : w < 256 ^ offSize fmt64) :
+    structParse env (.uint 4 le) data off = .ok (.int (if fmt64 then 0xFFFFFFFF else len : Nat), off + 4)
+    ∧ structParse env (.uint (fmtOf fmt64 / 8) le) data (off + ilfs fmt64) = .ok (.int w, off + ilfs fmt64 + offSize fmt64) := by
+  cases fmt64 with
+  | false =>
+    simp only [encLength, Bool.false_eq_true, if_false, lenOk, decide_eq_true_eq, ilfs, offSize, fmtOf] at hd hlen hw ⊢
+    have h1 := drop_after hd (encNat_length le 4 len)
+    exact ⟨sp_uint hd (by omega), sp_uint h1 hw⟩
+  | true =>
+    simp only [encLength, if_true, lenOk, decide_eq_true_eq, ilfs, offSize, fmtOf, List.append_assoc] at hd hlen hw ⊢
+    have h1 := drop_after hd (encNat_length le 4 _)
+    have h2 := drop_after h1 (encNat_length le 8 _)
+    rw [Nat.add_assoc] at h2
+    exact ⟨sp_uint hd (by decide), sp_uint h2 hw⟩
+
+
+theorem fmtOf_div (b : Bool) : fmtOf b / 8 = offSize b := by cases b <;> rfl
+theorem fmtOf_ilfs (b : Bool) : (if fmtOf b = 32 then 4 else 12) = ilfs b := by cases b <;> rfl
+theorem the_offset_eq (le : Bool) (fmt asz ver : Nat) :
+    (Spec.dwarfStructs ⟨le, fmt, asz, ver⟩).the_Dwarf_offset = .uint (fmt / 8) le := rfl
+theorem the_u32_eq (le : Bool) (fmt asz ver : Nat) :
+    (Spec.dwarfStructs ⟨le, fmt, asz, ver⟩).the_Dwarf_uint32 = .uint 4 le := rfl
+
+/-- the format decision of `_parse_entry_at` on the first word -/
+theorem first_word (eh fmt64 : Bool) (len : Nat) (hlen : lenOk fmt64 len = true) (hpos : 0 < len) :
+    (eh && ((if fmt64 then 0xFFFFFFFF else len : Nat) == 0)) = false
+    ∧ (if (if fmt64 then 0xFFFFFFFF else len : Nat) = 0xFFFFFFFF then 64 else 32) = fmtOf fmt64 := by
+  cases fmt64 with
+  | true => simp [fmtOf]
+  | false =>
+    simp only [lenOk, Bool.false_eq_true, if_false, decide_eq_true_eq] at hlen
+    have h1 : len ≠ 0 := by omega
+    have h2 : len ≠ 0xFFFFFFFF := by omega
+    simp [fmtOf, h1, h2]
+
+theorem cieHdrBytes_split (le : Bool) (osz idv ver : Nat) (aug : Bytes) (a s : Nat) (caf : ULeb) (daf : SLeb) (ra : ULeb)
+    (r : Bytes) : ∃ pre : Bytes, pre.length = cieHdrLen osz ver aug caf daf ra ∧
+      cieHdrBytes le osz idv ver aug a s caf daf ra r = pre ++ r := by
+  refine ⟨cieHdrBytes le osz idv ver aug a s caf daf ra [], ?_, ?_⟩
+  · rw [cieHdrBytes_length]; rfl
+  · rw [cieHdrBytes_append]; rfl
+
+theorem cieFields_length (len idv ver : Nat) (aug : Bytes) (a s : Nat) (caf daf : Int) (ra : Nat) :
+    Fields.getR (cieFields len idv ver aug a s caf daf ra) "length" = .ok (.int len) := rfl
+
+theorem cieFields_aug (len idv ver : Nat) (aug : Bytes) (a s : Nat) (caf daf : Int) (ra : Nat) :
+    Fields.get? (cieFields len idv ver aug a s caf daf ra) "augmentation" = some (.bytes aug) := by
+  simp (config := { decide := true }) [cieFields, Fields.get?]
+
+@[simp] theorem cfiOf_structs (sec : Section) (env : Env) (data : Bytes) (fmt : Nat) :
+    (cfiOf sec env data).structs fmt = .ok (Spec.dwarfStructs ⟨sec.le, fmt, sec.asz, 2⟩) := rfl
+@[simp] theorem cfiOf_eh (sec : Section) (env : Env) (data : Bytes) : (cfiOf sec env data).eh = sec.eh := rfl
+@[simp] theorem cfiOf_data (sec : Section) (env : Env) (data : Bytes) : (cfiOf sec env data).data = data := rfl
+@[simp] theorem cfiOf_env (sec : Section) (env : Env) (data : Bytes) : (cfiOf sec env data).env = env := rfl
+@[simp] theorem cfiOf_T (sec : Section) (env : Env) (data : Bytes) : (cfiOf sec env data).T = Spec.cfiTables := rfl
+@[simp] theorem cfiOf_address (sec : Section) (env : Env) (data : Bytes) : (cfiOf sec env data).address = sec.address := rfl
+
+theorem asz_of_wf (sec : Section) (hwf : sec.wf = true) : sec.asz = 4 ∨ sec.asz = 8 := by
+  simp only [Section.wf, Bool.and_eq_true, Bool.or_eq_true, beq_iff_eq] at hwf
+  exact hwf.1
+
+theorem cie_miss (sec : Section) (env : Env) (hwf : sec.wf = true) (hsz : (encodeSection sec).length < 2 ^ 63)
+    (j : Nat) (c : Cie) (hj : sec.entries[j]? = some (.cie c)) (fuel pos : Nat) (cache : Cache)
+    (hmiss : cache.get (sec.offsetOf j : Int) = none) :
+    parseEntryAt (cfiOf sec env (encodeSection sec)) (fuel + 1) (sec.offsetOf j) pos cache
+      = .ok (mCie sec (sec.offsetOf j) c, sec.offsetOf j + Entry.size sec (.cie c),
+             ((sec.offsetOf j : Int), mCie sec (sec.offsetOf j) c) :: cache) := by
+  have hw := wf_at sec hwf j _ hj
+  have hd := drop_offsetOf sec j _ hj
+  have hle := offsetOf_succ_le sec hwf j (getElem?_lt hj)
+  rw [offsetOf_succ sec j _ hj] at hle
+  generalize hrest : encFrom sec (sec.offsetOf (j + 1)) (sec.entries.drop (j + 1)) = restS at hd
+  generalize sec.offsetOf j = off at *
+  generalize hdata : encodeSection sec = data at *
+  simp only [wfEntry, Cie.wf, Bool.and_eq_true] at hw
+  obtain ⟨⟨⟨⟨⟨⟨⟨⟨hkind, hv4⟩, hcaf⟩, hdaf⟩, hra⟩, haug⟩, hins⟩, hsl⟩, hlen⟩ := hw
+  have hasz := asz_of_wf sec hwf
+  have hL := cie_size_eq sec c
+  have hd' : data.drop off = encLength sec.le c.fmt64 (c.body sec).length ++
+      cieHdrBytes sec.le (offSize c.fmt64) (cieIdv sec c) c.version (augString c.aug) c.addrSize c.segSize c.caf c.daf
+        c.ra (cieAugPart sec c ++ (encInstrs sec.le sec.asz c.instrs ++ restS)) := by
+    rw [hd]; simp only [Entry.enc, List.append_assoc]; congr 1
+    rw [cie_body_eq, cieHdrBytes_append, List.append_assoc]
+  clear hd
+  have hver : c.version = 1 ∨ c.version = 3 ∨ c.version = 4 := by
+    cases heh : sec.eh <;> simp [heh] at hkind <;> omega
+  have hid : cieIdv sec c < 256 ^ offSize c.fmt64 := by
+    unfold cieIdv; split
+    · exact Nat.pow_pos (by decide)
+    · exact Nat.sub_lt (Nat.pow_pos (by decide)) (by decide)
+  have ha : 4 ≤ c.version → c.addrSize < 256 := by
+    intro h4
+    simp only [Bool.or_eq_true, decide_eq_true_eq, Bool.and_eq_true, beq_iff_eq] at hv4
+    omega
+  have hs : 4 ≤ c.version → c.segSize < 256 := by
+    intro h4
+    simp only [Bool.or_eq_true, decide_eq_true_eq, Bool.and_eq_true, beq_iff_eq] at hv4
+    omega
+  have hra' : if c.version = 1 then c.ra.v < 256 else c.ra.wf = true := by
+    split at hra
+    · rename_i h1; simp only [h1, if_true]; simpa using hra
+    · rename_i h1; simp only [h1, if_false]; exact hra
+  have hwords := entry_words (env := env) hd' hlen hid
+  have hhdr := sp_cie_header (env := env) hd' hlen hid hver (augString_nonzero c.aug) ha hs hcaf hdaf hra'
+  obtain ⟨pre, hprelen, hpre⟩ := cieHdrBytes_split sec.le (offSize c.fmt64) (cieIdv sec c) c.version (augString c.aug)
+    c.addrSize c.segSize c.caf c.daf c.ra (cieAugPart sec c ++ (encInstrs sec.le sec.asz c.instrs ++ restS))
+  have hd1 := drop_after hd' (encLength_length ..)
+  rw [hpre] at hd1
+  have hd2 := drop_after hd1 hprelen
+  have hd3 := drop_after hd2 rfl
+  -- the augmentation
+  have haugp : parseCieAugmentation (cfiOf sec env data) (Spec.dwarfStructs ⟨sec.le, fmtOf c.fmt64, sec.asz, 2⟩)
+      (cieFields (c.body sec).length (cieIdv sec c) c.version (augString c.aug) c.addrSize c.segSize c.caf.v c.daf.v c.ra.v)
+      (off + ilfs c.fmt64 + cieHdrLen (offSize c.fmt64) c.version (augString c.aug) c.caf c.daf c.ra)
+      = .ok (cieAugBytes sec c, augDictObs sec.le sec.asz c.aug,
+          off + ilfs c.fmt64 + cieHdrLen (offSize c.fmt64) c.version (augString c.aug) c.caf c.daf c.ra
+            + (cieAugPart sec c).length) := by
+    cases hau : c.aug with
+    | none =>
+      rw [cieAug_none (by rw [cieFields_aug]; rfl)]
+      simp [cieAugBytes, cieAugPart, hau, augDictObs]
+    | some items =>
+      cases heh : sec.eh with
+      | false => simp [heh, hau] at hkind
+      | true =>
+        rw [hau] at haug
+        simp only [Bool.and_eq_true, decide_eq_true_eq, List.all_eq_true] at haug
+        have hd2' : (cfiOf sec env data).data.drop
+            (off + ilfs c.fmt64 + cieHdrLen (offSize c.fmt64) c.version (augString c.aug) c.caf c.daf c.ra)
+            = encUlebN c.augLenN (augData sec.le sec.asz items).length ++ (augData sec.le sec.asz items
+                ++ (encInstrs sec.le sec.asz c.instrs ++ restS)) := by
+          rw [show (cfiOf sec env data).data = data from rfl, hd2]
+          simp [cieAugPart, hau, heh, List.append_assoc]
+        rw [← hau]
+        rw [cieAug_some (C := cfiOf sec env data) rfl heh (by rw [cieFields_aug, hau]; rfl) haug.1.1.1 haug.1.1.2
+          haug.1.2 haug.2 hd2']
+        simp [cieAugBytes, cieAugPart, hau, heh, encUlebN_length, Nat.add_assoc]
+  -- the instructions
+  have hinsw : ∀ i ∈ c.instrs, Cfa.wf sec.asz i = true := by simpa [List.all_eq_true] using hins
+  have hil := instrs_length_le sec.le sec.asz c.instrs
+  have hsize : Entry.size sec (.cie c) = ilfs c.fmt64 + (c.body sec).length := rfl
+  have hpi := parseInstructions_ok (instrStructs_spec sec.le (fmtOf c.fmt64) sec.asz 2) env data c.instrs
+    (off + ilfs c.fmt64 + cieHdrLen (offSize c.fmt64) c.version (augString c.aug) c.caf c.daf c.ra
+      + (cieAugPart sec c).length)
+    (data.length + 1 - (off + ilfs c.fmt64 + cieHdrLen (offSize c.fmt64) c.version (augString c.aug) c.caf c.daf c.ra
+      + (cieAugPart sec c).length)) restS hd3 hinsw (by omega)
+  have hend : off + (c.body sec).length + ilfs c.fmt64
+      = off + ilfs c.fmt64 + cieHdrLen (offSize c.fmt64) c.version (augString c.aug) c.caf c.daf c.ra
+        + (cieAugPart sec c).length + (encInstrs sec.le sec.asz c.instrs).length := by omega
+  have hbpos : 0 < (c.body sec).length := by
+    rw [hL]; unfold cieHdrLen offSize; split <;> omega
+  obtain ⟨hw1, hw2⟩ := first_word sec.eh c.fmt64 _ hlen hbpos
+  have hisCie : (if sec.eh = true then (cieIdv sec c == 0)
+      else (fmtOf c.fmt64 == 32 && cieIdv sec c == 0xFFFFFFFF) || cieIdv sec c == 0xFFFFFFFFFFFFFFFF) = true := by
+    unfold cieIdv fmtOf offSize
+    cases sec.eh <;> cases c.fmt64 <;> decide
+  have hoff : off < 2 ^ 63 := by omega
+  have hw2' := hwords.2
+  rw [fmtOf_div] at hw2'
+  rw [parseEntryAt]
+  simp only [hmiss, seekPos_nat off hoff, cfiOf_structs, cfiOf_eh, cfiOf_data, cfiOf_env, cfiOf_T, bind, Except.bind, pure,
+    Except.pure, the_u32_eq, hwords.1, asNat_nat,
+    hw1, hw2, Bool.false_eq_true, if_false, fmtOf_ilfs, the_offset_eq, fmtOf_div, hw2', hisCie, if_true, eh_cie_header_eq,
+    cie_header_eq, ite_self, hhdr, asFields, haugp, cieFields_length, hend, hpi]
+  rw [← hend, show off + (c.body sec).length + ilfs c.fmt64 = off + Entry.size sec (.cie c) by rw [hsize]; omega]
+  rfl
+
+theorem modelOf_size (sec : Section) (off : Nat) (se : Spec.Entry) (hw : wfEntry sec off se = true) (hz : se ≠ .zero) :
+    ∃ h len il, (modelOf sec off se).header = .ok h ∧ Fields.getR h "length" = .ok (.int (len : Nat))
+      ∧ (modelOf sec off se).ilfs = .ok il ∧ len + il = se.size sec := by
+  cases se with
+  | zero => exact absurd rfl hz
+  | cie c =>
+    refine ⟨_, (c.body sec).length, ilfs c.fmt64, rfl, rfl, ?_, ?_⟩
+    · simp only [modelOf, mCie, Model.Entry.ilfs, fmtOf_ilfs]
+    · simp [Entry.size]; omega
+  | fde f =>
+    simp only [wfEntry, Fde.wf] at hw
+    cases hc : sec.cieAt f.cie with
+    | none => rw [hc] at hw; cases hw
+    | some c =>
+      refine ⟨fdeFields sec off f c, offSize f.fmt64 + (f.tail sec c).length, ilfs f.fmt64, ?_, ?_, ?_, ?_⟩
+      · simp only [modelOf, hc, mFde, Model.Entry.header]
+      · rfl
+      · simp only [modelOf, hc, mFde, Model.Entry.ilfs, fmtOf_ilfs]
+      · simp [Entry.size, hc]; omega
+
+/-- a cache hit at the offset of entry `i` -/
+theorem entry_hit (sec : Section) (env : Env) (data : Bytes) (hwf : sec.wf = true) (i : Nat) (se : Spec.Entry)
+    (hi : sec.entries[i]? = some se) (fuel pos : Nat) (cache : Cache) (hinv : CacheInv sec cache) (e : Model.Entry)
+    (hk : cache.get (sec.offsetOf i : Int) = some e) :
+    parseEntryAt (cfiOf sec env data) (fuel + 1) (sec.offsetOf i) pos cache
+      = .ok (modelOf sec (sec.offsetOf i) se, pos + se.size sec, cache) := by
+  obtain ⟨hz, he⟩ := hinv.hit hwf hi hk
+  subst he
+  obtain ⟨h, len, il, h1, h2, h3, h4⟩ := modelOf_size sec _ se (wf_at sec hwf i se hi) hz
+  rw [entry_cached _ fuel _ pos cache _ h len il hk h1 h2 h3, h4]
+
+/-- fetching a CIE (hit or miss) -/
+theorem cie_fetch (sec : Section) (env : Env) (hwf : sec.wf = true) (hsz : (encodeSection sec).length < 2 ^ 63)
+    (j : Nat) (c : Cie) (hj : sec.entries[j]? = some (.cie c)) (fuel pos : Nat) (cache : Cache)
+    (hinv : CacheInv sec cache) :
+    parseEntryAt (cfiOf sec env (encodeSection sec)) (fuel + 1) (sec.offsetOf j) pos cache
+      = .ok (mCie sec (sec.offsetOf j) c,
+             (match cache.get (sec.offsetOf j : Int) with
+              | some _ => pos + Entry.size sec (.cie c) | none => sec.offsetOf j + Entry.size sec (.cie c)),
+             Kc (sec.offsetOf j : Int) (mCie sec (sec.offsetOf j) c) cache) := by
+  cases hk : cache.get (sec.offsetOf j : Int) with
+  | some e =>
+    rw [entry_hit sec env _ hwf j _ hj fuel pos cache hinv e hk]
+    simp only [Kc, hk]; rfl
+  | none =>
+    rw [cie_miss sec env hwf hsz j c hj fuel pos cache hk]
+    simp only [Kc, hk]
+
+
+/-- what remains to be shown for an FDE that is not in the cache -/
+def FdeMissOk (sec : Section) (env : Env) : Prop :=
+  ∀ (i : Nat) (f : Fde) (c : Cie), sec.entries[i]? = some (.fde f) → sec.cieAt f.cie = some c →
+    ∀ (fuel pos : Nat) (cache : Cache), CacheInv sec cache → cache.get (sec.offsetOf i : Int) = none →
+    ∃ cache', parseEntryAt (cfiOf sec env (encodeSection sec)) (fuel + 2) (sec.offsetOf i) pos cache
+        = .ok (mFde sec (sec.offsetOf i) f c, sec.offsetOf i + Entry.size sec (.fde f), cache')
+      ∧ CacheInv sec cache'
+
+theorem entry_at (sec : Section) (env : Env) (hwf : sec.wf = true) (hsz : (encodeSection sec).length < 2 ^ 63)
+    (hfde : FdeMissOk sec env) (i : Nat) (se : Spec.Entry) (hi : sec.entries[i]? = some se) (fuel : Nat)
+    (cache : Cache) (hinv : CacheInv sec cache) :
+    ∃ cache', parseEntryAt (cfiOf sec env (encodeSection sec)) (fuel + 2) (sec.offsetOf i) (sec.offsetOf i) cache
+        = .ok (modelOf sec (sec.offsetOf i) se, sec.offsetOf (i + 1), cache')
+      ∧ CacheInv sec cache' := by
+  rw [offsetOf_succ sec i se hi]
+  cases hk : cache.get (sec.offsetOf i : Int) with
+  | some e =>
+    exact ⟨cache, entry_hit sec env _ hwf i se hi (fuel + 1) _ cache hinv e hk, hinv⟩
+  | none =>
+    have hw := wf_at sec hwf i se hi
+    cases se with
+    | zero =>
+      have hd := drop_offsetOf sec i _ hi
+      have hle := offsetOf_succ_le sec hwf i (getElem?_lt hi)
+      rw [offsetOf_succ sec i _ hi] at hle
+      simp only [Entry.size] at hle
+      refine ⟨cache, ?_, hinv⟩
+      exact entry_zero (cfiOf sec env (encodeSection sec)) _ sec.le (fuel + 1) _ _ cache _ hw rfl rfl (by omega) hk hd
+    | cie c =>
+      refine ⟨_, cie_miss sec env hwf hsz i c hi (fuel + 1) _ cache hk, ?_⟩
+      exact hinv.cons i (.cie c) hi (by simp)
+    | fde f =>
+      simp only [wfEntry, Fde.wf] at hw
+      cases hc : sec.cieAt f.cie with
+      | none => rw [hc] at hw; cases hw
+      | some c =>
+        obtain ⟨cache', h1, h2⟩ := hfde i f c hi hc fuel (sec.offsetOf i) cache hinv hk
+        refine ⟨cache', ?_, h2⟩
+        rw [h1]; simp only [modelOf, hc]
+
+theorem loop_ok (sec : Section) (env : Env) (hwf : sec.wf = true) (hsz : (encodeSection sec).length < 2 ^ 63)
+    (hfde : FdeMissOk sec env) (d : Nat) : ∀ (k i : Nat), i + k = sec.entries.length → ∀ (fuel : Nat) (cache : Cache),
+    k < fuel → CacheInv sec cache →
+    parseEntriesLoop (cfiOf sec env (encodeSection sec)) (encodeSection sec).length (d + 2) fuel (sec.offsetOf i) cache
+      = .ok (modelFrom sec (sec.offsetOf i) (sec.entries.drop i)) := by
+  intro k
+  induction k with
+  | zero =>
+    intro i hi fuel cache hf _
+    have : i = sec.entries.length := by omega
+    subst this
+    cases fuel with
+    | zero => omega
+    | succ fuel =>
+      rw [parseEntriesLoop, offsetOf_end]
+      simp [modelFrom]
+  | succ k ih =>
+    intro i hi fuel cache hf hinv
+    cases fuel with
+    | zero => omega
+    | succ fuel =>
+      have hil : i < sec.entries.length := by omega
+      have hget : sec.entries[i]? = some sec.entries[i] := List.getElem?_eq_getElem hil
+      obtain ⟨cache', h1, h2⟩ := entry_at sec env hwf hsz hfde i _ hget d cache hinv
+      have hlt : sec.offsetOf i < (encodeSection sec).length := by
+        have := offsetOf_succ_le sec hwf i hil
+        have := offsetOf_lt sec hwf (i + 1) i (Nat.lt_succ_self i) (by omega)
+        omega
+      rw [parseEntriesLoop]
+      simp only [hlt, if_true, h1, bind, Except.bind, pure, Except.pure]
+      rw [ih (i + 1) (by omega) fuel cache' (by omega) h2]
+      rw [← List.getElem_cons_drop_succ_eq_drop hil, modelFrom, offsetOf_succ sec i _ hget]
+
+theorem parseEntries_ok (sec : Section) (env : Env) (hwf : sec.wf = true) (hsz : (encodeSection sec).length < 2 ^ 63)
+    (hfde : FdeMissOk sec env) :
+    parseEntries (cfiOf sec env (encodeSection sec)) (encodeSection sec).length
+      = .ok (modelFrom sec 0 sec.entries) := by
+  have h0 : sec.offsetOf 0 = 0 := rfl
+  have hlen := index_le_offset sec hwf sec.entries.length (Nat.le_refl _)
+  rw [offsetOf_end] at hlen
+  have := loop_ok sec env hwf hsz hfde (encodeSection sec).length sec.entries.length 0 (by omega)
+    ((encodeSection sec).length + 2) [] (by omega) (CacheInv.nil sec)
+  rw [h0, List.drop_zero] at this
+  exact this
+
+theorem cieAt_get {sec : Section} {j : Nat} {c : Cie} (h : sec.cieAt j = some c) : sec.entries[j]? = some (.cie c) := by
+  unfold Section.cieAt at h
+  split at h
+  · rename_i c' hc; injection h with h; subst h; exact hc
+  · cases h
+
+theorem fdeFields_ptr (sec : Section) (off : Nat) (f : Fde) (c : Cie) :
+    Fields.getR (fdeFields sec off f c) "CIE_pointer" = .ok (.int (sec.ciePointer off f)) := by
+  simp (config := { decide := true }) [fdeFields, Fields.getR, Fields.get?]
+
+/-- `_parse_cie_for_fde`: the CIE pointer designates the CIE's offset in both section kinds; the entry there is
+    fetched (parsed and cached, or taken from the cache) and the stream position is preserved -/
+theorem link_ok (sec : Section) (env : Env) (hwf : sec.wf = true) (hsz : (encodeSection sec).length < 2 ^ 63)
+    (off : Nat) (f : Fde) (c : Cie) (hc : sec.cieAt f.cie = some c)
+    (hback : sec.eh = true → f.fmt64 = false ∧ sec.offsetOf f.cie < off)
+    (header : Fields) (hptr : Fields.getR header "CIE_pointer" = .ok (.int (sec.ciePointer off f)))
+    (fuel pos : Nat) (cache : Cache) (hinv : CacheInv sec cache) :
+    parseCieForFde (cfiOf sec env (encodeSection sec)) (parseEntryAt (cfiOf sec env (encodeSection sec)) (fuel + 1))
+        off header (fmtOf f.fmt64) pos cache
+      = .ok (mCie sec (sec.offsetOf f.cie) c,
+             Kc (sec.offsetOf f.cie : Int) (mCie sec (sec.offsetOf f.cie) c) cache) := by
+  have hj := cieAt_get hc
+  have hf := cie_fetch sec env hwf hsz f.cie c hj fuel pos cache hinv
+  unfold parseCieForFde
+  cases heh : sec.eh with
+  | false =>
+    simp only [hptr, Val.asInt, bind, Except.bind, pure, Except.pure, cfiOf_eh, heh, Bool.false_eq_true, if_false]
+    rw [show sec.ciePointer off f = sec.offsetOf f.cie by simp [Section.ciePointer, heh], hf]
+  | true =>
+    obtain ⟨h64, hlt⟩ := hback heh
+    simp only [hptr, Val.asInt, bind, Except.bind, pure, Except.pure, cfiOf_eh, heh, if_true]
+    have : ((off : Int) + ((fmtOf f.fmt64 / 8 : Nat) : Int) - (sec.ciePointer off f : Int)) = (sec.offsetOf f.cie : Int) := by
+      simp only [Section.ciePointer, heh, h64, fmtOf, ilfs, if_true, Bool.false_eq_true, if_false]
+      omega
+    rw [this, hf]
+
+
+theorem encPtr0_length (le : Bool) (asz : Nat) (v : Int) : (encPtr le asz 0 v).length = asz := by
+  simp [encPtr, encNat_length]
+
+theorem mCie_header (sec : Section) (off : Nat) (c : Cie) :
+    (mCie sec off c).header = .ok (cieFields (c.body sec).length (cieIdv sec c) c.version (augString c.aug) c.addrSize
+      c.segSize c.caf.v c.daf.v c.ra.v) := rfl
+theorem mCie_augDict (sec : Section) (off : Nat) (c : Cie) :
+    (mCie sec off c).augDict = .ok (augDictObs sec.le sec.asz c.aug) := rfl
+
+theorem fde_miss_df (sec : Section) (env : Env) (hwf : sec.wf = true) (hsz : (encodeSection sec).length < 2 ^ 63)
+    (heh : sec.eh = false) (i : Nat) (f : Fde) (c : Cie) (hi : sec.entries[i]? = some (.fde f))
+    (hc : sec.cieAt f.cie = some c) (fuel pos : Nat) (cache : Cache) (hinv : CacheInv sec cache)
+    (hmiss : cache.get (sec.offsetOf i : Int) = none) :
+    ∃ cache', parseEntryAt (cfiOf sec env (encodeSection sec)) (fuel + 2) (sec.offsetOf i) pos cache
+        = .ok (mFde sec (sec.offsetOf i) f c, sec.offsetOf i + Entry.size sec (.fde f), cache')
+      ∧ CacheInv sec cache' := by
+  have hw := wf_at sec hwf i _ hi
+  have hj := cieAt_get hc
+  have hwc := wf_at sec hwf f.cie _ hj
+  have hd := drop_offsetOf sec i _ hi
+  have hle := offsetOf_succ_le sec hwf i (getElem?_lt hi)
+  rw [offsetOf_succ sec i _ hi] at hle
+  have hmodel : modelOf sec (sec.offsetOf i) (.fde f) = mFde sec (sec.offsetOf i) f c := by simp only [modelOf, hc]
+  have hinvI : ∀ ch : Cache, CacheInv sec ch →
+      CacheInv sec (((sec.offsetOf i : Int), mFde sec (sec.offsetOf i) f c) :: ch) :=
+    fun ch h => by rw [← hmodel]; exact h.cons i (.fde f) hi (by simp)
+  have hinvK : ∀ ch : Cache, CacheInv sec ch →
+      CacheInv sec (Kc (sec.offsetOf f.cie : Int) (mCie sec (sec.offsetOf f.cie) c) ch) :=
+    fun ch h => h.Kc f.cie (.cie c) hj (by simp)
+  have hlink := fun (hdr : Fields) (hp : Fields.getR hdr "CIE_pointer" = .ok (.int (sec.ciePointer (sec.offsetOf i) f)))
+      (p : Nat) (ch : Cache) (h : CacheInv sec ch) =>
+    link_ok sec env hwf hsz (sec.offsetOf i) f c hc (by intro h; rw [heh] at h; cases h) hdr hp fuel p ch h
+  generalize hrest : encFrom sec (sec.offsetOf (i + 1)) (sec.entries.drop (i + 1)) = restS at hd
+  generalize hk : sec.offsetOf f.cie = k at *
+  generalize sec.offsetOf i = off at *
+  generalize hdata : encodeSection sec = data at *
+  simp only [wfEntry, Fde.wf, hc, heh, Bool.false_eq_true, if_false, Bool.and_eq_true, decide_eq_true_eq] at hw
+  obtain ⟨⟨⟨⟨⟨hfl, hfr⟩, hkl⟩, hins⟩, _⟩, hlen⟩ := hw
+  simp only [wfEntry, Cie.wf, heh, Bool.false_eq_true, if_false, Bool.and_eq_true] at hwc
+  have haugn : c.aug = none := by
+    have := hwc.1.1.1.1.1.1.1.1.2
+    cases h : c.aug with
+    | none => rfl
+    | some x => rw [h] at this; cases this
+  have hptrv : sec.ciePointer off f = k := by simp [Section.ciePointer, heh, hk]
+  have htail : f.tail sec c = encPtr sec.le sec.asz 0 f.loc ++ (encPtr sec.le sec.asz 0 f.range
+      ++ encInstrs sec.le sec.asz f.instrs) := by
+    simp [Fde.tail, Fde.augPart, heh, encPtr, List.append_assoc]
+  have htl : (f.tail sec c).length = sec.asz + sec.asz + (encInstrs sec.le sec.asz f.instrs).length := by
+    rw [htail]; simp [encPtr0_length]; omega
+  have hd' : data.drop off = encLength sec.le f.fmt64 (offSize f.fmt64 + (f.tail sec c).length) ++
+      (encNat sec.le (offSize f.fmt64) k ++ (encPtr sec.le sec.asz 0 f.loc ++ (encPtr sec.le sec.asz 0 f.range
+        ++ (encInstrs sec.le sec.asz f.instrs ++ restS)))) := by
+    rw [hd]; simp only [Entry.enc, hc, hptrv, List.append_assoc]; rw [htail]; simp only [List.append_assoc]
+  clear hd
+  have hkl' : k < 256 ^ offSize f.fmt64 := by omega
+  have hwords := entry_words (env := env) hd' hlen hkl'
+  have hw2' := hwords.2
+  rw [fmtOf_div] at hw2'
+  have hd1 := drop_after hd' (encLength_length ..)
+  have hd2 := drop_after hd1 (encNat_length ..)
+  have hd3 := drop_after hd2 (encPtr0_length ..)
+  have hd4 := drop_after hd3 (encPtr0_length ..)
+  have hhdr := sp_fde_full (env := env) (c := .uint sec.asz sec.le) hd' hlen hkl'
+    (fun ctx => by
+      have := parse_ptr (env := env) (ctx := ctx) (le := sec.le) (asz := sec.asz) (base := 0) rfl hfl hd2
+      rwa [encPtr0_length] at this)
+    (fun ctx => by
+      have := parse_ptr (env := env) (ctx := ctx) (le := sec.le) (asz := sec.asz) (base := 0) rfl hfr hd3
+      rwa [encPtr0_length] at this)
+  have hinsw : ∀ x ∈ f.instrs, Cfa.wf sec.asz x = true := by simpa [List.all_eq_true] using hins
+  have hil := instrs_length_le sec.le sec.asz f.instrs
+  have hsize : Entry.size sec (.fde f) = ilfs f.fmt64 + offSize f.fmt64 + (f.tail sec c).length := by
+    simp only [Entry.size, hc]
+  have hpi := parseInstructions_ok (instrStructs_spec sec.le (fmtOf f.fmt64) sec.asz 2) env data f.instrs
+    (off + ilfs f.fmt64 + offSize f.fmt64 + sec.asz + sec.asz)
+    (data.length + 1 - (off + ilfs f.fmt64 + offSize f.fmt64 + sec.asz + sec.asz)) restS hd4 hinsw (by omega)
+  have hend : off + (offSize f.fmt64 + (f.tail sec c).length) + ilfs f.fmt64
+      = off + ilfs f.fmt64 + offSize f.fmt64 + sec.asz + sec.asz + (encInstrs sec.le sec.asz f.instrs).length := by omega
+  have hbpos : 0 < offSize f.fmt64 + (f.tail sec c).length := by unfold offSize; split <;> omega
+  obtain ⟨hw1, hw2⟩ := first_word sec.eh f.fmt64 _ hlen hbpos
+  have hisCie : ((fmtOf f.fmt64 == 32 && k == 0xFFFFFFFF) || k == 0xFFFFFFFFFFFFFFFF) = false := by
+    revert hkl; unfold fmtOf offSize
+    cases f.fmt64 <;> simp <;> omega
+  have hoff : off < 2 ^ 63 := by omega
+  have hfp : Fields.getR (fdeFields sec off f c) "CIE_pointer" = .ok (.int (sec.ciePointer off f)) := fdeFields_ptr ..
+  have hfields : [("length", Val.int ((offSize f.fmt64 + (f.tail sec c).length : Nat) : Int)), ("CIE_pointer", Val.int (k : Nat)),
+      ("initial_location", Val.int f.loc), ("address_range", Val.int f.range)] = fdeFields sec off f c := by
+    simp [fdeFields, hptrv, pcrelAdj, fdeEncIn, heh]
+  rw [hfields] at hhdr
+  refine ⟨_, ?_, hinvI _ (hinvK _ (hinvK _ hinv))⟩
+  rw [parseEntryAt]
+  simp only [hmiss, seekPos_nat off hoff, cfiOf_structs, cfiOf_eh, cfiOf_data, cfiOf_env, cfiOf_T, bind, Except.bind, pure,
+    Except.pure, the_u32_eq, hwords.1, asNat_nat,
+    hw1, hw2, Bool.false_eq_true, if_false, fmtOf_ilfs, the_offset_eq, fmtOf_div, hw2', heh, hisCie,
+    parseFdeHeader, Bool.not_false, if_true, fde_header_eq, hhdr, asFields,
+    hlink _ hfp _ _ hinv, hlink _ hfp _ _ (hinvK _ hinv), mCie_header, mCie_augDict, cieFields_aug, haugn]
+  have hflen : Fields.getR (fdeFields sec off f c) "length" = .ok (.int ((offSize f.fmt64 + (f.tail sec c).length : Nat) : Int)) := rfl
+  simp only [Bool.false_and, Bool.false_eq_true, if_false, Option.getD, augString, List.isPrefixOf, augDictObs, Fields.get?,
+    ne_eq, not_true_eq_false, hflen, asNat_nat, hend, hpi, hlink _ hfp _ _ (hinvK _ hinv), pure, Except.pure]
+  have hmf : mFde sec off f c = Model.Entry.fde (fdeFields sec off f c) (List.map toInstr f.instrs) off (mCie sec k c) []
+      none (fmtOf f.fmt64) := by
+    simp [mFde, hk, Fde.augPart, heh]
+  have hpos : off + ilfs f.fmt64 + offSize f.fmt64 + sec.asz + sec.asz + (encInstrs sec.le sec.asz f.instrs).length
+      = off + Entry.size sec (.fde f) := by rw [hsize]; omega
+  rw [hmf, hpos]
+
+
+
+
+/-- an entry's canonical value without the decoded table and the pyelftools-only `order` field -/
+def coreVal : Val → Val
+  | .record fs => .record (fs.filter fun kv => kv.1 != "table" && kv.1 != "order")
+  | v => v
+
+/-- the table the Spec prescribes for an entry (the `table` field of `Entry.obs`) -/
+def stdTableOf (sec : Section) (off : Nat) : Spec.Entry → Option (List Row)
+  | .cie c => stdTableCie c.caf.v c.daf.v c.instrs
+  | .fde f =>
+    match sec.cieAt f.cie with
+    | none => none
+    | some c => stdTableFde c.caf.v c.daf.v c.instrs (f.loc + pcrelAdj sec (fdeEncIn sec c) (fdeLocOff off f)) f.instrs
+  | .zero => none
+
+theorem modelOf_core (sec : Section) (off : Nat) (e : Spec.Entry) (hw : wfEntry sec off e = true) :
+    coreVal ((modelOf sec off e).toVal Spec.cfiTables) = coreVal (e.obs sec off) := by
+  cases e with
+  | zero => rfl
+  | cie c =>
+    simp only [modelOf, mCie, Model.Entry.toVal, Entry.obs]
+    rcases tableVals cfiTables _ with ⟨t, o⟩
+    simp (config := { decide := true }) only [coreVal, List.filter, Cie.headerObs, cieFields, cieAugBytes, cieIdv]
+    cases sec.eh <;> simp <;> exact ⟨by cases c.aug <;> rfl, fun a _ => rfl⟩
+  | fde f =>
+    simp only [wfEntry, Fde.wf] at hw
+    cases hc : sec.cieAt f.cie with
+    | none => rw [hc] at hw; cases hw
+    | some c =>
+      simp only [modelOf, hc, mFde, Model.Entry.toVal, Entry.obs]
+      rcases tableVals cfiTables _ with ⟨t, o⟩
+      have hto : ∀ a ∈ f.instrs, (toInstr a).toVal = instrObs a := fun a _ => rfl
+      by_cases h : sec.eh = true ∧ ¬ c.lsdaEnc = 255
+      · simp (config := { decide := true }) [coreVal, List.filter, fdeFields, Model.Entry.offset, mCie, fdeLocOff,
+          fdeEncIn, fdeAugSkip, fdeLsdaOff, h, optInt]
+        exact hto
+      · simp (config := { decide := true }) [coreVal, List.filter, fdeFields, Model.Entry.offset, mCie, fdeLocOff,
+          fdeEncIn, fdeAugSkip, fdeLsdaOff, h, optInt]
+        exact hto
+
+theorem cie_instrs_wf (sec : Section) (hwf : sec.wf = true) (j : Nat) (c : Cie) (hj : sec.entries[j]? = some (.cie c)) :
+    ∀ x ∈ c.instrs, Cfa.wf sec.asz x = true := by
+  have hw := wf_at sec hwf j _ hj
+  simp only [wfEntry, Cie.wf, Bool.and_eq_true] at hw
+  simpa [List.all_eq_true] using hw.1.1.2
+
+/-- the decoded table of the object built for entry `i` is the table of DWARF §6.4, whenever the Spec defines one -/
+theorem modelOf_table (sec : Section) (hwf : sec.wf = true) (i : Nat) (se : Spec.Entry) (hi : sec.entries[i]? = some se)
+    (rows : List Row) (hstd : stdTableOf sec (sec.offsetOf i) se = some rows) :
+    ∃ d, decodeTable Spec.cfiTables (modelOf sec (sec.offsetOf i) se) = .ok d ∧ All₂ LineRel d.table rows := by
+  cases se with
+  | zero => cases hstd
+  | cie c =>
+    exact decode_cie sec.asz c.caf.v c.daf.v _ rfl rfl c.instrs (cie_instrs_wf sec hwf i c hi) rows hstd _ _ _ _
+  | fde f =>
+    have hw := wf_at sec hwf i _ hi
+    simp only [wfEntry, Fde.wf] at hw
+    simp only [stdTableOf] at hstd
+    cases hc : sec.cieAt f.cie with
+    | none => rw [hc] at hw; cases hw
+    | some c =>
+      rw [hc] at hstd hw
+      simp only [Bool.and_eq_true] at hw
+      have hfw : ∀ x ∈ f.instrs, Cfa.wf sec.asz x = true := by simpa [List.all_eq_true] using hw.1.1.2
+      simp only [modelOf, hc, mFde, mCie]
+      exact decode_fde sec.asz c.caf.v c.daf.v _ _ _ rfl rfl rfl c.instrs f.instrs
+        (cie_instrs_wf sec hwf f.cie c (cieAt_get hc)) hfw rows hstd _ _ _ _ _ _ _ _
+
+
+theorem core_from (sec : Section) : ∀ (es : List Spec.Entry) (off : Nat), wfFrom sec off es = true →
+    All₂ (fun m v => coreVal (Model.Entry.toVal Spec.cfiTables m) = coreVal v) (modelFrom sec off es) (obsFrom sec off es) := by
+  intro es
+  induction es with
+  | nil => intro off _; exact .nil
+  | cons e es ih =>
+    intro off h
+    simp only [wfFrom, Bool.and_eq_true] at h
+    have hw : wfEntry sec off e = true := by cases e <;> exact h.1
+    exact .cons (modelOf_core sec off e hw) (ih _ h.2)
+
+theorem fdeMissOk_df (sec : Section) (env : Env) (hwf : sec.wf = true) (hsz : (encodeSection sec).length < 2 ^ 63)
+    (heh : sec.eh = false) : FdeMissOk sec env :=
+  fun i f c hi hc fuel pos cache hinv hmiss => fde_miss_df sec env hwf hsz heh i f c hi hc fuel pos cache hinv hmiss
+
+theorem fdeMissOk_noFde (sec : Section) (env : Env) (h : ∀ f, Spec.Entry.fde f ∉ sec.entries) : FdeMissOk sec env :=
+  fun i f _ hi _ _ _ _ _ _ => absurd (List.mem_of_getElem? hi) (h f)
 
 end PyElf.Proofs.Cfi
